@@ -199,7 +199,23 @@ class TrSpec:
             vals = [str(self.number)]
         else:
             vals = [fnum(v) for v in self.origin]
-            vals += [fnum(v) for v in (self.entries or [])]
+            ent = list(self.entries or [])
+            while ent and ent[-1] is None:
+                ent.pop()
+            k = 0
+            while k < len(ent):
+                if ent[k] is None:
+                    run = 1
+                    while k + run < len(ent) and ent[k + run] is None:
+                        run += 1
+                    if getattr(self, 'jump_runs', False) and run > 1:
+                        vals.append(f'{run}j')
+                    else:
+                        vals.extend(['j'] * run)
+                    k += run
+                else:
+                    vals.append(fnum(ent[k]))
+                    k += 1
         vals[0] = '(' + vals[0]
         vals[-1] = vals[-1] + ')'
         return vals
@@ -329,7 +345,8 @@ class Deck:
     def importance_zero(self, cel):
         '''True iff the cell's importance is zero for every particle type.'''
         if cel.imp is not None:
-            vals = [float(v) for v in cel.imp.values()]
+            from .matref import fortran_float
+            vals = [fortran_float(str(v)) for v in cel.imp.values()]
             return all(v == 0 for v in vals)
         rank = [c.id for c in self.cells].index(cel.id)
         vals = []
@@ -352,6 +369,16 @@ def expand_shorthand(tokens):
             out.extend([out[-1]] * reps)
         elif tok.endswith('m') and tok != 'm':
             out.append(out[-1] * float(tok[:-1]))
+        elif tok.endswith('log') and (tok[:-3].rstrip('i').isdigit()
+                                      or tok in ('log', 'ilog')):
+            # nILOG / nLOG: n values in geometric progression
+            head = tok[:-3].rstrip('i')
+            npts = int(head) if head else 1
+            upper = float(toks[i + 1])
+            lower = out[-1]
+            ratio = (upper / lower) ** (1.0 / (npts + 1))
+            for k in range(1, npts + 1):
+                out.append(lower * ratio ** k)
         elif tok.endswith('i') and (tok[:-1].isdigit() or tok == 'i'):
             npts = int(tok[:-1]) if tok[:-1] else 1
             upper = float(toks[i + 1])
@@ -436,6 +463,10 @@ def option_atoms(deck, cel, only=None):
             out.append(f'{star}trcl={par[0]}')
             out.extend(par[1:])
         groups['trcl'] = out
+    for name in getattr(deck, 'params_on_data_cards', ()):
+        # these cell parameters are written as data cards (one entry per
+        # cell, in the order of the cell block) instead of keywords
+        groups.pop(name, None)
     order = getattr(cel, 'opt_order', None)
     if order is None and only is not None and getattr(cel, 'but_ordered',
                                                       False):
@@ -456,6 +487,7 @@ def shuffle_options(deck, rng, share=0.5):
             order = list(OPTION_GROUPS)
             rng.shuffle(order)
             cel.opt_order = order
+    deck.data_shuffle = rng.getrandbits(32)
     deck.tags.add('keywords.unordered')
 
 
@@ -490,6 +522,16 @@ def deck_cards(deck, style=None, expand_like=False):
         data.append(mat.atoms())
     for extra in deck.extra_data:
         data.append(list(extra))
+    for name in getattr(deck, 'params_on_data_cards', ()):
+        if name == 'u':
+            data.append(['u'] + [str(c.u or 0) for c in deck.cells])
+        elif name == 'fill':
+            data.append(['fill'] + [str(c.fill.universe if c.fill else 0)
+                                    for c in deck.cells])
+    if getattr(deck, 'data_shuffle', None) is not None:
+        # the order of the cards in the data block is free as well
+        import random
+        random.Random(deck.data_shuffle).shuffle(data)
     return cells, surfs, data
 
 
